@@ -1,2 +1,41 @@
-(* C02 -- theorem statements are being added; see DESIGN.md. *)
-From HS Require Import Lib.Base.
+(* C02 -- serve(): body bytes are exactly the entity bytes the headers denote. *)
+From HS Require Import Lib.Base Lib.Dec Model.Body Model.Serve Proofs.BodyP Proofs.BodyRun Proofs.ServeP Proofs.ServeProps Proofs.EchoP.
+
+(* A 200 to GET reads the entity's complete byte range, once (get_range (0, L) is the only source
+   of body bytes). *)
+Theorem c02_full : forall fmt_date parse_date now ent req r,
+  e_len ent < U64 -> serve_model fmt_date parse_date now ent req = Ok r -> status r = 200 -> r_meth req = GET ->
+  forall streams, body_init streams (rplan r) = (BExact {| x_s := stream_of streams 0; x_rem := e_len ent |}, [(0, e_len ent)]).
+Proof. exact full_200. Qed.
+
+(* A single-range 206 carries Content-Range: bytes a-(e-1)/L with a < e <= L (i.e. a <= b < L),
+   L the entity length, and reads exactly entity bytes a..e (half-open), nothing else. *)
+Theorem c02_single_range : forall fmt_date parse_date now ent req r,
+  e_len ent < U64 -> ~ In H_CONTENT_RANGE (map fst (e_hdrs ent)) ->
+  serve_model fmt_date parse_date now ent req = Ok r -> status r = 206 -> values H_CONTENT_RANGE (hdrs r) <> [] ->
+  exists a e, a < e /\ e <= e_len ent /\
+    values H_CONTENT_RANGE (hdrs r) = [content_range_value a e (e_len ent)] /\
+    (r_meth req = GET -> forall streams, body_init streams (rplan r) = (BExact {| x_s := stream_of streams 0; x_rem := e - a |}, [(a, e)])).
+Proof. exact single_range_206. Qed.
+
+(* What such a body hands on is, byte for byte and in order, what the entity's stream produced
+   for that range -- no byte reordered, duplicated, dropped or invented, for every chunking. *)
+Theorem c02_bytes_pass_through : forall n streams x rs bf, run n streams (BExact x) = Ok (rs, bf) ->
+  existsb is_perr rs = false ->
+  exists x', bf = BExact x' /\ data_bytes rs ++ stream_bytes (x_s x') = stream_bytes (x_s x).
+Proof. exact exact_passes_bytes. Qed.
+Theorem c02_clean_end_whole_range : forall n streams x rs bf, run n streams (BExact x) = Ok (rs, bf) ->
+  existsb is_perr rs = false -> existsb is_pend rs = true -> data_bytes rs = stream_bytes (x_s x).
+Proof. exact exact_clean_end_bytes. Qed.
+
+(* No other response reads entity bytes at all (multipart 206 bodies are C06). *)
+Theorem c02_other_statuses_read_nothing : forall fmt_date parse_date now ent req r streams,
+  e_len ent < U64 -> serve_model fmt_date parse_date now ent req = Ok r ->
+  ~ In (status r) [200; 206] -> snd (body_init streams (rplan r)) = [] /\ exists o, rplan r = PlOnce o.
+Proof. exact other_statuses_read_nothing. Qed.
+
+Print Assumptions c02_full.
+Print Assumptions c02_single_range.
+Print Assumptions c02_bytes_pass_through.
+Print Assumptions c02_clean_end_whole_range.
+Print Assumptions c02_other_statuses_read_nothing.
